@@ -10,7 +10,7 @@ import os, sys, json, time, hashlib, random, traceback, argparse, math, subproce
 from fractions import Fraction
 import numpy as np
 import z3
-from . import core, nd
+from . import core, nd, stubs
 from .core import Sym, SBool, Poly, Env, s_and, s_or
 
 VERIF = os.path.dirname(os.path.dirname(os.path.abspath(__file__)))
@@ -225,6 +225,7 @@ class ConcreteRun:
         self.claims = None
         self.assume_ok = True
         I = _concrete_inputs(vals)
+        stubs.reset()
         try:
             for a in ob.assume(I):
                 if isinstance(a, SBool):
@@ -468,6 +469,7 @@ def run_obligation(ob, seed=0, tier="quick", collect_functions=True):
             assume_f = [SBool.of(a) for a in ob.assume(I)]
 
         def fn():
+            stubs.reset()
             with nd.symbolic_mode():
                 return ob.run(I)
         ts = time.time()
